@@ -144,6 +144,8 @@ def scenarios(thorough):
     s = [
         sc_validation("seg2", [G_("g1", "Muss", [S_("s1", "Muss [1]", [F_("e1", "Muss [2][901]", "a1"), F_("e2", "Muss [3] U [501][901]", "b")])])],
                       {1: "F", 2: "F", 3: "F"}, describe="one segment, two free-text elements with the same format constraint key and different inputs"),
+        sc_validation("segempty", [G_("g1", "Muss", [S_("s1", "Muss", [F_("e1", "Muss [1][901]", "a1"), F_("e2", "Muss [2][901]", None), F_("e3", "Muss [3][901]", "")])])],
+                      {1: "F", 2: "F", 3: "F"}, describe="a filled element followed by elements without input (None / empty string) that carry the same format constraint"),
         sc_validation("seg11", [G_("g1", "X", [S_("s1", "Muss [1]", [F_("e1", "Muss [2][902] Kann [3][903]", "x2")]),
                                                S_("s2", "Kann [4]", [F_("e2", "X [5][902]", "y3"), F_("e3", "Muss [6]", None)])])],
                       {1: "F", 2: "U", 3: "F", 4: "F", 5: "F", 6: "F"}, describe="two segments; an element with two modal-mark parts; an element without input"),
